@@ -399,6 +399,9 @@ func initAllowed(path string) bool {
 	if strings.HasPrefix(path, "github.com/osrg/gobgp/") {
 		return !strings.HasSuffix(path, "/api")
 	}
+	if strings.HasPrefix(path, "github.com/gaissmai/bart") {
+		return true
+	}
 	switch path {
 	case "net/netip", "errors", "io", "bytes", "bufio", "encoding/binary", "internal/byteorder", "math", "math/bits", "strconv",
 		"sort", "slices", "context", "internal/bytealg", "unicode/utf8", "strings", "cmp", "internal/stringslite", "internal/itoa",
